@@ -105,12 +105,12 @@ def gen_engineered(c):
 def gen_random(c):
     out = []
     rng = c.rng
-    reps = 400 if c.tier == "quick" else 2000
+    reps = 400 if c.tier == "quick" else 1200
     for r in range(reps):
         if c.tier == "quick":
             n = rng.choice([30, 100, 300, 1000])
         else:      # long histories are expensive in the list-based extracted model: few of them
-            n = 10000 if r % 100 == 0 else 3000 if r % 25 == 0 else rng.choice([30, 100, 300, 1000])
+            n = 10000 if r % 400 == 0 else 3000 if r % 100 == 0 else rng.choice([30, 100, 300, 1000])
         # universe: few distinct low parts x several high parts => collisions modulo every size reached
         lows = rng.choice([3, 5, 17])
         his = max(2, n // lows)
